@@ -11,7 +11,7 @@ sound for every number of iterations; equal facts merge; worklist to fixpoint, n
 The rule supplies  transfer(inst, auto_state, ctx) -> auto_state | iterable of auto_states | None
 (None = path ends, e.g. noreturn call) and receives exit states at `ret` instructions.
 """
-from .facts import cond_atoms, negate, _k, strip_bitcasts
+from .facts import cond_atoms, negate, _k, strip_bitcasts, shift_const
 from .ir import const_int
 
 
@@ -314,6 +314,9 @@ def path_atoms(fn, ref, truth, s, depth=0):
         if ins.pred not in _PREDS:
             return []
         a0, b0 = _k(strip_bitcasts(fn, a)), _k(strip_bitcasts(fn, b))
+        if ins.pred in ('eq', 'ne') and (const_int(a0) is not None or a0 == 'null') and not (const_int(b0) is not None or b0 == 'null'):
+            a0, b0 = b0, a0
+        a0, b0 = shift_const(fn, ins.pred, a0, b0)
         a = s.lookup(a0)
         b = s.lookup(b0)
         at = _PREDS[ins.pred](a, b)
